@@ -235,7 +235,17 @@ func C07(c *Ctx) {
 	}
 	// null nodes / branches while loading
 	nload := 0
-	for _, f := range []*ssa.Function{compile, parse} {
+	loaders := map[*ssa.Function]bool{}
+	var loaderList []*ssa.Function
+	for _, f0 := range []*ssa.Function{compile, parse} {
+		for _, f := range pkgClosure(f0) {
+			if !loaders[f] && f != c.P.Func("core", "Spec", "Step") {
+				loaders[f] = true
+				loaderList = append(loaderList, f)
+			}
+		}
+	}
+	for _, f := range loaderList {
 		ssau.Instrs(f, func(in ssa.Instruction) {
 			switch x := in.(type) {
 			case *ssa.Extract:
